@@ -197,6 +197,8 @@ package checkers
 //@ func newErrorHandler
 //@   prop C18 C19
 //@   nosafety
+//@   assigns nothing
+//@   trusted_frame it builds its table and the list for the error message from fresh objects; the per-write obligations are C05's sweep
 //@   ensures @handler-or-error (result1 == nil) <==> (result0 != nil)
 //@   ensures @table-wellformed result1 == nil ==> wfHandler(deref(result0))
 //@   ensures @listed-classes result1 == nil ==> (forall x string :: has(result0.failureConditions, x) <==> (x != "" && (exists k int :: 0 <= k && k < splitLen(failOnErrorFlag, ",") && splitAt(failOnErrorFlag, ",", k) == x)))
@@ -232,8 +234,9 @@ package checkers
 //@   prop C18 C19
 //@   nosafety parameter presence/types are validated at registration
 //@   ensures @checker-or-error (result1 == nil) <==> (result0 != nil)
-//@   ensures @no-rules-no-engine old(unbox(info.Params["rules"].Value, "string")) == "" ==> (result1 == nil && result0.engine == nil)
-//@   call newErrorHandler requires @legacy-flag-means-all arg0 == ite(unbox(info.Params["failOn"].Value, "string") == "" && unbox(info.Params["failOnError"].Value, "bool"), "all", unbox(info.Params["failOn"].Value, "string"))
+//@   ensures @no-rules-no-engine (old(unbox(info.Params["rules"].Value, "string")) == "" && result1 == nil) ==> result0.engine == nil
+//@   call newErrorHandler requires @legacy-flag-means-all arg0 == ite(unbox(info.Params["failOnError"].Value, "bool"), ite(unbox(info.Params["failOn"].Value, "string") == "", "all", unbox(info.Params["failOn"].Value, "string") + ",all"), unbox(info.Params["failOn"].Value, "string"))
+//@   ensures @unknown-policy-value-is-an-error-even-without-rules (!unbox(old(info.Params["failOnError"].Value), "bool") && (exists k int :: 0 <= k && k < splitLen(unbox(old(info.Params["failOn"].Value), "string"), ",") && splitAt(unbox(old(info.Params["failOn"].Value), "string"), ",", k) != "" && splitAt(unbox(old(info.Params["failOn"].Value), "string"), ",", k) != "dsl" && splitAt(unbox(old(info.Params["failOn"].Value), "string"), ",", k) != "import" && splitAt(unbox(old(info.Params["failOn"].Value), "string"), ",", k) != "all")) ==> result1 != nil
 //@   loop 1 body @disable-entry-recorded ite(hasPrefix(trimSpace(splitAt(unbox(info.Params["disable"].Value, "string"), ",", $i)), "#"), disabledTags[substr(trimSpace(splitAt(unbox(info.Params["disable"].Value, "string"), ",", $i)), 1, len(trimSpace(splitAt(unbox(info.Params["disable"].Value, "string"), ",", $i))))], disabledGroups[trimSpace(splitAt(unbox(info.Params["disable"].Value, "string"), ",", $i))])
 //@   loop 3 body @pattern-without-match-is-fatal len(filenames) != 0
 //@   loop 4 body @load-failure-of-a-listed-class-is-fatal forall r int :: (old(emitted(loadresult)) <= r && r < emitted(loadresult) && !isNilIface(emittedArg(loadresult, 0, r, "error"))) ==> !failsOn(deref(h), emittedArg(loadresult, 0, r, "error"))
